@@ -45,7 +45,7 @@ def digest(v):
 
 
 def pure_record(rng_mod, name, n, seed, others):
-  rec = R('%s-pure-%d-%d' % (name, n, seed % 1000), 'pure', {'name': name, 'family': family(name), 'n': n, 'n_mod_8': n % 8})
+  rec = R('%s-pure-%d-%d-b%d' % (name, n, seed % 1000, seed.bit_length()), 'pure', {'name': name, 'family': family(name), 'n': n, 'n_mod_8': n % 8})
   try:
     g = rng_mod.GetRng(name)
     a = g.RandomBits(n, seed=seed)
@@ -57,6 +57,46 @@ def pure_record(rng_mod, name, n, seed, others):
   except Exception as e:  # pylint: disable=broad-except
     rec['raised'] = type(e).__name__
   return rec
+
+
+SPECIAL_SEEDS = [1 << 64, 3 << 64, 1 << 128, (1 << 64) + 1, 1 << 32, 1 << 63, (1 << 192) + (5 << 64)]
+HIST_NS = [13, 16, 9, 64, 61, 128, 16, 3, 24, 23]
+
+
+def _fresh_value(args):
+  name, n, seed = args
+  shim.install()
+  from paranoid_crypto.lib.randomness_tests import rng as rng_mod
+  try:
+    return args, digest(rng_mod.GetRng(name).RandomBits(n, seed=seed))
+  except Exception as e:  # pylint: disable=broad-except
+    return args, 'raised ' + type(e).__name__
+
+
+def hist_records(rng_mod, names, rnd, quick):
+  """One generator object, one seed, a sequence of lengths (shrinking, growing inside one byte count, growing); reference: the call alone
+  in a fresh process."""
+  import multiprocessing as mp
+  plans = []
+  for name in names:
+    if name.startswith(UNSEEDABLE):
+      continue
+    ns = HIST_NS if not name.startswith(SLOW) else HIST_NS[:6]
+    for seed in ([rnd.randrange(1, 2 ** 48)] if quick else [rnd.randrange(1, 2 ** 48), SPECIAL_SEEDS[0], rnd.randrange(1, 2 ** 200)]):
+      plans.append((name, list(ns), seed))
+  want = sorted({(name, n, seed) for name, ns, seed in plans for n in ns})
+  with mp.get_context('fork').Pool(processes=12, maxtasksperchild=40) as pool:
+    fresh = dict(pool.imap_unordered(_fresh_value, want, chunksize=8))
+  recs = []
+  for name, ns, seed in plans:
+    rec = R('%s-hist-%d' % (name, seed % 100003), 'hist', {'name': name, 'family': family(name), 'ns': ns, 'n': ns[0], 'n_mod_8': ns[0] % 8})
+    try:
+      g = rng_mod.GetRng(name)
+      rec['obs'] = {'equal_fresh': [digest(g.RandomBits(n, seed=seed)) == fresh[(name, n, seed)] for n in ns]}
+    except Exception as e:  # pylint: disable=broad-except
+      rec['raised'] = type(e).__name__
+    recs.append(rec)
+  return recs
 
 
 def lengths(quick, name):
@@ -135,6 +175,11 @@ def run(ctx):
           continue
         others = [(rnd.choice(names[:24]), rnd.randrange(1, 200), rnd.randrange(1, 99)) for _ in range(3)]
         recs.append(pure_record(rng_mod, name, n, rnd.randrange(1, 2 ** 48), others))
+      # seeds whose low 32 / 64 bits are zero, seeds far above the state size
+      for j, sp in enumerate(SPECIAL_SEEDS):
+        n = [64, 13, 100][j % 3] if not name.startswith(SLOW) else 13
+        recs.append(pure_record(rng_mod, name, n, sp, []))
+  recs += hist_records(rng_mod, names, rnd, ctx.quick)
   # java: TLC recomputes the BigInteger byte stream on limbs
   for i in range(150 if ctx.quick else 1200):
     seed = rnd.choice([1, 42, rnd.randrange(1, 2 ** 48), rnd.randrange(1, 2 ** 48), 2 ** 48 - 1, 2 ** 47])
